@@ -22,6 +22,7 @@ pub fn run(tier: Tier) -> i32 {
             tune: &|p: &mut Profile| {
                 p.wsdl = 0;
                 p.ext_bias = true;
+                p.colliding_abbrev = true;
             },
             only: Some(&derived),
             extra: Some(&c02::member_namespaces),
